@@ -80,6 +80,25 @@ func persistEquiv(c *ctx, sb *zap.SegmentBase, spec sx.V, ndocs uint64, mode uin
 	if d := partsDiffer(opened.Sx(), spec, allParts); len(d) > 0 {
 		return "opened segment differs from the specification in " + fmt.Sprint(d) + "\n" + describeDiff(opened.Sx(), spec, allParts)
 	}
+	// sections are visited in Go map order when a segment is opened: a segment with data in more
+	// than one section (thesauri) is opened repeatedly
+	if len(spec.L[pThes].L) > 0 {
+		for k := 0; k < 12; k++ {
+			s2, err := zh.Plugin.Open(path)
+			if err != nil {
+				return "Open failed: " + err.Error()
+			}
+			again, err := zh.Dump(s2)
+			s2.Close()
+			if err != nil {
+				return "opened segment cannot be read: " + err.Error()
+			}
+			if d := partsDiffer(again.Sx(), inmem.Sx(), allParts); len(d) > 0 {
+				return fmt.Sprintf("the file opened again (open #%d of the same file) answers differently from the in-memory segment in %v\n%s", k+2, d, describeDiff(again.Sx(), inmem.Sx(), allParts))
+			}
+			c.Count("repeated_opens")
+		}
+	}
 	if fullParse {
 		if p := parseBytesAgainst(c, pbytes, spec, allParts); p != "" {
 			return "persisted file decoded by the extracted parser: " + p
